@@ -83,6 +83,29 @@ class StubTransport(asyncio.DatagramTransport):
     def get_write_buffer_size(self) -> int:
         return 1 if self.buffered else 0
 
+    # -- the stream flavour of the same stub --
+    def write(self, data: Any) -> None:
+        self.sent.append(bytes(data))
+
+    def writelines(self, list_of_data: Any) -> None:
+        for d in list_of_data:
+            self.sent.append(bytes(d))
+
+    def can_write_eof(self) -> bool:
+        return False
+
+    def set_write_buffer_limits(self, high: Any = None, low: Any = None) -> None:
+        pass
+
+    def is_reading(self) -> bool:
+        return not self.closing
+
+    def pause_reading(self) -> None:
+        pass
+
+    def resume_reading(self) -> None:
+        pass
+
 
 class Impl:
     def __init__(self, kind: str) -> None:
@@ -106,6 +129,17 @@ class Impl:
             ep = DatagramEndpoint(self.tr, self.proto, recv_queue=rq, exception_queue=eq)
             self.adapter: Any = ep
             self._send = lambda i: ep.sendto(b"d%d" % i, ("127.0.0.1", 9))
+        elif kind == "stream":
+            # the stream adapter has the same shape: send_all() = transport.write() + drain, aclose() = close() + shielded wait
+            from easynetwork.lowlevel.api_async.backend._asyncio.backend import AsyncIOBackend
+            from easynetwork.lowlevel.api_async.backend._asyncio.stream.socket import AsyncioTransportStreamSocketAdapter, StreamReaderBufferedProtocol
+
+            self.proto = StreamReaderBufferedProtocol(loop=loop)
+            self.proto.connection_made(self.tr)
+            self.tr.proto = self.proto
+            st = AsyncioTransportStreamSocketAdapter(AsyncIOBackend(), self.tr, self.proto)
+            self.adapter = st
+            self._send = lambda i: st.send_all(b"d%d" % i) if i % 2 else st.send_all_from_iterable([b"d", b"%d" % i])
         else:
             from easynetwork.lowlevel.api_async.backend._asyncio.backend import AsyncIOBackend
             from easynetwork.lowlevel.api_async.backend._asyncio.datagram.listener import DatagramListenerProtocol, DatagramListenerSocketAdapter
@@ -267,7 +301,7 @@ DIRECTED = [
 
 def _replay(chk: Check, g: graph.Graph, paths: list[list[tuple[str, tuple[Any, ...], int]]], senders: list[int], label: str) -> tuple[int, int]:
     ncmp = nbad = 0
-    for kind in ("endpoint", "listener"):
+    for kind in ("endpoint", "listener", "stream"):
         for path in paths:
             impl = Impl(kind)
             done: list[str] = []
@@ -282,8 +316,8 @@ def _replay(chk: Check, g: graph.Graph, paths: list[list[tuple[str, tuple[Any, .
                             nbad += 1
                             if nbad <= 12:
                                 chk.violation(
-                                    {"kind": "replay", "spec": "DatagramFlow", "adapter": "datagram-" + kind, "what": "divergence"},
-                                    f"asyncio datagram {kind} adapter diverges from DatagramFlow after [{' '.join(done)}] ('|' = the loop runs until nothing is scheduled): "
+                                    {"kind": "replay", "spec": "DatagramFlow", "adapter": ("datagram-" if kind != "stream" else "") + kind, "what": "divergence"},
+                                    f"asyncio {'datagram ' if kind != 'stream' else ''}{kind} adapter diverges from DatagramFlow after [{' '.join(done)}] ('|' = the loop runs until nothing is scheduled): "
                                     f"implementation {got} / specification {want}",
                                     {"kind": "datagram_flow", "adapter": kind, "actions": [(a, list(ar)) for a, ar, _d in path], "got": got, "want": want},
                                 )
@@ -332,7 +366,7 @@ def run(chk: Check) -> None:
         ncmp, nbad = _replay(chk, g, paths, senders, consts["Senders"])
         total["comparisons"] += ncmp
         total["diverging"] += nbad
-        total["behaviours"] += 2 * len(paths)
-        chk.traces += 2 * len(paths)
+        total["behaviours"] += 3 * len(paths)
+        chk.traces += 3 * len(paths)
         chk.states += len(g.states)
     chk.extra["datagram_flow_replay"] = total
